@@ -150,8 +150,12 @@ def replay(beh, workdir, seed, stats):
         rec.update(kw)
         return sig, rec
 
+    unread = set()       # objects created but not looked at yet (a copy is a copy from the moment it is made, read or not)
+
     def check_all(step):
         for oi, ro in enumerate(real):
+            if oi in unread:
+                continue
             so = sobjs[oi]
             hs2 = atoms_of(ro, so['kind'])
             if len(hs2) != len(so['cells']):
@@ -313,9 +317,17 @@ def replay(beh, workdir, seed, stats):
         except Exception as exc:
             import traceback
             return fail('exception', step, exception=type(exc).__name__, traceback=traceback.format_exc()[-800:])
+        # every second copy is first looked at only after the NEXT operation
+        unread.clear()
+        if op in ('copy', 'deepcopy') and (seed + step) % 2 and step + 1 < len(beh['hist']):
+            unread.add(len(real) - 1)
         bad = check_all(step)
         if bad:
             return bad
+    unread.clear()
+    bad = check_all(len(beh['hist']) - 1)
+    if bad:
+        return bad
     # the system still hands out the molecule as it is in the file
     try:
         fresh = syst[-1] if seed % 2 else syst[0]
